@@ -74,10 +74,7 @@ M = [
  ('c05_ctrl_escape_dropped', 'C05', 'src/Xdl.cpp', "			if ((byte)c < 0x20) // the other control characters must be escaped too", "			if ((byte)c < 0x1f) // the other control characters must be escaped too"),
  ('c06_unicode_count_reset_on_parse', 'C06', 'src/Xdl.cpp', "	if(_state == ERR)\n		return;\n	while(char c=*s++)", "	if(_state == ERR)\n		return;\n	_unicodeCount = 0;\n	while(char c=*s++)"),
  ('c06_incomment_not_kept', 'C06', 'src/Xdl.cpp', "	if(_state == ERR)\n		return;\n	while(char c=*s++)", "	if(_state == ERR)\n		return;\n	_inComment = false;\n	while(char c=*s++)"),
- ('c06_slash_in_key_comment', 'C06', 'src/Xdl.cpp', "			if(c=='/' && _state != STRING && _state != ESCAPE && _state != QPROPERTY)", "			if(c=='/' && _state != STRING && _state != ESCAPE)"), ('c09_range_parts_unchecked', 'C09', 'src/HttpServer.cpp', "				if (parts.length() == 2)", "				if (parts.length() >= 1)"),
- ('c09_dotdot_filter_before_decode', 'C09', 'src/Http.cpp', "	_path = Url::decode(_res.substring(0, pathend));\n\n	if(_path.contains(\"..\"))\n		_path = _path.replace(\"..\", \"\");", "	_path = _res.substring(0, pathend);\n\n	if(_path.contains(\"..\"))\n		_path = _path.replace(\"..\", \"\");\n	_path = Url::decode(_path);"),
- ('c09_readline_cap_removed', 'C09', 'src/Socket.cpp', "			if (s.length() > 16000)", "			if (s.length() > 160000000)"),
- ('c10_readbody_size_not_decremented', 'C10', 'src/Http.cpp', "				size -= bytesRead;\n				if (size <= 0) {", "				if (currentsize >= size) {"),
+ ('c06_slash_in_key_comment', 'C06', 'src/Xdl.cpp', "			if(c=='/' && _state != STRING && _state != ESCAPE && _state != QPROPERTY)", "			if(c=='/' && _state != STRING && _state != ESCAPE)"), ('c09_dotdot_filter_before_decode', 'C09', 'src/Http.cpp', "	_path = Url::decode(_res.substring(0, pathend));\n\n	if(_path.contains(\"..\"))\n		_path = _path.replace(\"..\", \"\");", "	_path = _res.substring(0, pathend);\n\n	if(_path.contains(\"..\"))\n		_path = _path.replace(\"..\", \"\");\n	_path = Url::decode(_path);"),
  ('c10_write_block_advance_off_by_one', 'C10', 'src/Http.cpp', "		n -= m;\n		buffer += m;", "		n -= m;\n		buffer += (m > 4096 ? m - 1 : m);"),
  ('c10_header_value_lowercased', 'C10', 'src/Http.cpp', "	else\n		_headers[cname] = value;", "	else\n		_headers[cname] = (cname.startsWith(\"X-R1\") && value.length() > 20) ? value.toLowerCase() : value;"),
 ]
